@@ -50,7 +50,7 @@ func shrink(t *testing.T, job *Job) {
 				break
 			}
 			cand.normalise()
-			if p.Valid != nil && !p.Valid(cand) {
+			if !terminates(cand) || (p.Valid != nil && !p.Valid(cand)) {
 				continue
 			}
 			if nrf := sh.try(&cur, cand); nrf != nil {
